@@ -333,13 +333,74 @@ def check(ctx) -> Result:
     res.add(seq == ["INPUT", "BASE", "MEAS"], "I-experiment-structure", "order", cc.site(), cc.qualname, "preparation, process, measurement - in that order", f"experiment circuit is assembled in the order {seq}", construct=str(seq))
     # nothing is carried over between process() calls
     from ..rules import rf_cache
-    for rel_, cn_ in ((LI, "LIProcessTomography"), (GF, "GateFidelity")):
+    for rel_, cn_ in ((LI, "LIProcessTomography"), (GF, "GateFidelity"), (MLE, "MLEProcessTomography")):
         ci_ = ctx.ix.module(rel_).classes.get(cn_)
         if ci_ is None or "process" not in ci_.methods:
             raise AnalysisError(f"{cn_}.process not found")
         rf_cache.f3_result_fields(ctx, res, ci_, ci_.methods["process"])
     n = rc_owner.c1_fields(ctx, res, [PTc])
     res.floor("held base circuit", n, 1)
+    # the MLE iteration starts from its own fresh matrix and keeps nothing on the algorithm object
+    alg = ctx.ix.module(MLE).classes.get("MLETomographyAlgorithm")
+    if alg is not None and "pgdb" in alg.methods:
+        rc_owner.c7_stateless_operation(ctx, res, alg.methods["pgdb"])
+    # gate fidelity: sum_j tr(U U_j^dagger U^dagger E(U_j)) with U the *target* (Nielsen's formula); the trace is cyclic
+    from .. import conjalg as _cg
+    from ..inline import inlined as _inl2
+    gfc = ctx.ix.module(GF).classes.get("GateFidelity")
+    gproc = gfc.methods.get("process") if gfc else None
+    if gproc is None:
+        res.frozen(False, "K-gate-fidelity-trace", "GateFidelity.process", GF, "GateFidelity", "", "GateFidelity.process not found", construct="")
+    else:
+        gfn = _inl2(gproc.node)
+        tparam = next((p_ for p_ in gproc.params() if "target" in p_), None)
+        traces = [c for c in ast.walk(gfn) if isinstance(c, ast.Call) and src(c.func).split(".")[-1] == "trace" and c.args]
+        loopvars = {x.id for l in ast.walk(gfn) if isinstance(l, (ast.For, ast.comprehension)) for x in ast.walk(l.target) if isinstance(x, ast.Name)}
+
+        def _flat(v):
+            if isinstance(v, _cg.Prod):
+                out = []
+                for f_ in v.factors:
+                    out += _flat(f_)
+                return out
+            return [v]
+
+        def _cls(e):
+            if isinstance(e, ast.Name):
+                if e.id == tparam or "target" in e.id:
+                    return _cg.Atom("U", "general")
+                low = e.id.lower()
+                if low.startswith("u") and e.id in loopvars:
+                    return _cg.Atom("B", "general")
+                return _cg.Atom("E", "general")
+            if isinstance(e, ast.Call) and src(e.func).split(".")[-1] in ("sum", "einsum", "tensordot", "_calculate_density_matrix"):
+                return _cg.Atom("E", "general")  # the measured process applied to a basis element (a linear combination)
+            if isinstance(e, ast.Subscript) and not isinstance(e.slice, ast.Slice):
+                return _cls(e.value) if isinstance(e.value, ast.Name) else _cg.Atom("E", "general")
+            return None
+
+        decided_gf = False
+        for tr_ in traces:
+            try:
+                v = _cg.norm(_cg.Evaluator(_cls).ev(tr_.args[0]))
+            except _cg.Unknown:
+                continue
+            fac = _flat(v)
+            if len(fac) != 4 or not all(isinstance(f_, _cg.Atom) for f_ in fac):
+                continue
+            names_ = [f_.name for f_ in fac]
+            if sorted(names_) != ["B", "E", "U", "U"]:
+                continue
+            # rotate (cyclic trace) so that E comes last
+            k = names_.index("E")
+            rot = fac[k + 1:] + fac[:k + 1]
+            sig = [(f_.name, f_.c, f_.t) for f_ in rot]
+            want = [("U", 0, 0), ("B", 1, 1), ("U", 1, 1), ("E", 0, 0)]
+            decided_gf = True
+            res.add(sig == want, "K-gate-fidelity-trace", "GateFidelity.process", gproc.site(tr_), gproc.qualname, "the summand is tr(U U_j^dagger U^dagger E(U_j)) with U the target",
+                    "the summand is tr(" + " . ".join(map(str, rot)) + "), not tr(U U_j^dagger U^dagger E(U_j)): the target and its adjoint are on the wrong sides, i.e. the fidelity is computed against the adjoint of the target - invisible for Hermitian targets (H, CNOT), wrong for S, T", construct=src(tr_)[:160])
+        if not decided_gf:
+            res.frozen(False, "K-gate-fidelity-trace", "GateFidelity.process", gproc.site(), gproc.qualname, "", "trace summand of the fidelity formula not recognised", construct="")
     from ..rules import rz_falsy
     nz = rz_falsy.none_checks(ctx, res, "C16", ())
     res.floor("Z functions scanned", nz, 3)
